@@ -765,9 +765,9 @@ def d1_specs(tier):
     return S
 
 
-def run_d1(ctx, tier, rng):
-    """one-op models through onnxruntime vs the OnnxInt definitions (compared inside Coq).
-    Returns (measured deviations {(op, dtype)}, statistics)"""
+def d1_prepare(ctx, tier, rng):
+    """one-op models through onnxruntime; the comparison with the OnnxInt definitions happens inside Coq.
+    Returns (items, operators onnxruntime has no kernel for, operators outside the ONNX type constraint)"""
     from onnx import defs
     items = []     # (label, dtype, coq function text, arg columns, ort rows, result kind)
     skipped_no_kernel, skipped_schema = [], []
@@ -860,19 +860,17 @@ def run_d1(ctx, tier, rng):
         slice_err = str(e)
         ctx.oblige("tieD1:Slice", False, "tie", slice_err[:300])
 
-    def render(chunk, off):
-        txt = ""
-        for j, (label, op, dt, coqf, cols, rows, kind) in enumerate(chunk):
-            txt += _render_cases(f"d{off + j}", coqf, cols, rows, kind)
-        return txt
-    res = common.coq_eval_batches(ctx, "c01k_d1", COQ_HDR, items, render, per_file=40)
-    bads = _collect_bad(res, len(items))
+    return items, skipped_no_kernel, skipped_schema
+
+
+def d1_finish(ctx, items, bads, skipped_no_kernel, skipped_schema):
     deviations = {}
     n_cases = 0
-    if bads is None:
-        ctx.oblige("tieD1:onnxint-vs-onnxruntime", False, "tie", "Coq evaluation failed: " + "\n".join(o[-600:] for ok, o in res if not ok)[:1500])
-        return set(), {"cases": 0}
     unexpected = []
+    broken = [it[0] for it, bad in zip(items, bads) if bad is None]
+    if broken:
+        ctx.oblige("tieD1:onnxint-vs-onnxruntime", False, "tie", f"Coq evaluation failed for {broken[:5]}")
+        return set(), {"cases": 0}
     for (label, op, dt, coqf, cols, rows, kind), bad in zip(items, bads):
         n_cases += len(rows)
         if bad:
@@ -885,9 +883,50 @@ def run_d1(ctx, tier, rng):
     stats = {"one_op_models": len(items), "cases": n_cases,
              "onnxruntime_has_no_kernel": sorted(set(skipped_no_kernel)),
              "not_in_onnx_type_constraint": len(skipped_schema),
-             "onnxruntime_deviations_from_onnx_semantics": {f"{op}:{dt}": [f"{l}: {n} points, e.g. {p[0]}" for l, n, p in v]
+             "onnxruntime_deviations_from_onnx_semantics": {f"{op}:{dt}": [f"{l}: {n} points, e.g. {p[0]}" for l, n, p in v][:4]
                                                           for (op, dt), v in sorted(deviations.items())}}
     return set(deviations), stats
+
+
+class CoqJobs:
+    """Coq commands that each print exactly one result (a `list nat` of bad indices, or a TIE_S_OK / TIE_S_BAD line);
+    spread over a few files (the fixed cost of a coqc process dominates) that are compiled in parallel"""
+
+    def __init__(self):
+        self.jobs = []
+
+    def add(self, text):
+        self.jobs.append(text)
+        return len(self.jobs) - 1
+
+    def run(self, ctx, nfiles=8):
+        from concurrent.futures import ThreadPoolExecutor
+        n = len(self.jobs)
+        nfiles = max(1, min(nfiles, n))
+        bins, loads = [[] for _ in range(nfiles)], [0] * nfiles
+        for i in sorted(range(n), key=lambda i: -len(self.jobs[i])):
+            b = loads.index(min(loads))
+            bins[b].append(i)
+            loads[b] += len(self.jobs[i]) + 2000
+        results = [None] * n
+        logs = []
+
+        def one(bi):
+            idx = sorted(bins[bi])
+            ok, out = common.coq_eval_file(ctx, f"c01k_eval_{bi}", COQ_HDR + "".join(self.jobs[i] for i in idx), timeout=900)
+            found = re.findall(r"=\s*(\[[^\]]*\]|nil)\s*:\s*list nat|TIE_S_(OK|BAD)\b", out.replace("\n", " "))
+            if not ok or len(found) != len(idx):
+                logs.append(out[-1500:])
+                return
+            for i, (lst, tie) in zip(idx, found):
+                if tie:
+                    results[i] = tie == "OK"
+                else:
+                    results[i] = [] if lst in ("nil", "[]") else [int(x.replace("%nat", "")) for x in lst.strip("[]").split(";") if x.strip()]
+        with ThreadPoolExecutor(max_workers=nfiles) as ex:
+            list(ex.map(one, range(nfiles)))
+        self.logs = logs
+        return results
 
 
 def _render_cases(name, coqf, cols, rows, kind):
@@ -1024,62 +1063,123 @@ def run(ctx):
     T["exports"] = round(_time.time() - t_, 1)
     t_ = _time.time()
 
-    # ---- tie D1: OnnxInt vs onnxruntime (one-op models); measured onnxruntime deviations
-    deviations, d1stats = run_d1(ctx, tier, rng)
-
-    T["tieD1"] = round(_time.time() - t_, 1)
+    jobs = CoqJobs()
+    # ---- tie D1 (prepare): one-op models through onnxruntime
+    d1_items, d1_nok, d1_schema = d1_prepare(ctx, tier, rng)
+    d1_jobs = [jobs.add(_render_cases(f"d{j}", coqf, cols, rows, kind))
+               for j, (label, op, dt, coqf, cols, rows, kind) in enumerate(d1_items)]
+    T["tieD1_onnxruntime"] = round(_time.time() - t_, 1)
     t_ = _time.time()
-    # ---- tie S: structure of the real export, convertible to Kernels.lowered_<k>
+
+    # ---- tie S (prepare): structure of the real export -> Gallina term
     for v in live:
+        v.s_job = None
         try:
             v.term, v.okind, v.ocode = gallina_of_model(v.model, v.k, v.dt)
+            low = coq_names(v.k, v.dt)[1]
+            v.s_job = jobs.add(f"Goal ({v.term}) = ({low}).\nProof. first [ timeout 20 reflexivity; idtac \"TIE_S_OK\" "
+                               f"| idtac \"TIE_S_BAD\" ]. Abort.\n")
         except Unrecognised as e:
             v.term_err = str(e)
-    recognised = [v for v in live if v.term is not None]
 
-    def render_s(chunk, off):
-        txt = ""
-        for j, v in enumerate(chunk):
-            _, low, _ = coq_names(v.k, v.dt)
-            txt += (f"Goal ({v.term}) = ({low}).\nProof. first [ timeout 20 reflexivity; idtac \"TIE_S_OK {off + j}\" "
-                    f"| idtac \"TIE_S_BAD {off + j}\" ]. Abort.\n")
-        return txt
-    res = common.coq_eval_batches(ctx, "c01k_s", COQ_HDR, recognised, render_s, per_file=60)
-    s_ok = set()
-    s_out = "\n".join(o for _, o in res)
-    for m in re.finditer(r"TIE_S_OK (\d+)", s_out):
-        s_ok.add(int(m.group(1)))
-    for i, v in enumerate(recognised):
-        v.s_ok = i in s_ok
+    # ---- the property on the real code (run): onnxruntime(export) vs eager JAX on the grid
+    for v in live:
+        v.type_errors = schema_type_errors(v.model)
+        if v.type_errors:
+            v.status = "onnx-type-invalid"
+            try:
+                run_ort(v.model, v.k, v.dt, tuple(a[:1] for a in v.inputs))
+                v.ort_err = "onnxruntime nevertheless ran it"
+            except Exception as e:  # noqa: BLE001
+                v.ort_err = "onnxruntime: " + str(e).replace("\n", " ")[:200]
+            continue
+        try:
+            v.ort = run_ort(v.model, v.k, v.dt, v.inputs)
+            v.status = "ran"
+        except Exception as e:  # noqa: BLE001
+            v.ort_err = str(e).replace("\n", " ")
+            v.status = "ort-no-kernel" if "NOT_IMPLEMENTED" in v.ort_err else "ort-error"
+            continue
+        v.shape_bad = False
+        if v.k.name == "dynamic_slice":
+            exp_rows = [np.asarray(r).tolist() for r in v.jax]
+            got_rows = [np.asarray(r).tolist() for r in v.ort]
+            v.bad = [i for i in range(len(exp_rows)) if exp_rows[i] != got_rows[i]]
+            v.shape_bad = any(len(exp_rows[i]) != len(got_rows[i]) for i in v.bad)
+            v.dtype_bad = any(np.asarray(a).dtype != np.asarray(b_).dtype for a, b_ in zip(v.jax, v.ort))
+        else:
+            j, o = np.asarray(v.jax), np.asarray(v.ort)
+            v.dtype_bad = j.dtype != o.dtype
+            if j.shape != o.shape:
+                v.shape_bad = True
+                v.bad = [0]
+            else:
+                eq = (j == o)
+                if j.dtype.kind == "f":
+                    eq = eq | (np.isnan(j) & np.isnan(o))
+                v.bad = np.nonzero(~eq.reshape(len(v.inputs[0]), -1).all(axis=1))[0].tolist()
+    T["search_onnxruntime"] = round(_time.time() - t_, 1)
+    t_ = _time.time()
+
+    # ---- ties D2 (jax_k == eager JAX) and D3 (lowered_k == onnxruntime(export)) (prepare): same grid, inside Coq
+    cap = 80 if tier == "quick" else 400
+    for v in live:
+        v.d2_job = v.d3_job = None
+        try:
+            jx, low, kind = coq_names(v.k, v.dt)
+            rj = rows_jax(v)
+            ro = rows_ort(v) if v.status == "ran" and not v.shape_bad else None
+            sel = _cap(len(rj), cap, rng, must=v.bad[:20])
+            if v.k.name == "one_hot":
+                n = v.k.extra["n"]
+                cols = (np.repeat(v.inputs[0][sel], n), np.tile(np.arange(n, dtype=np.int64), len(sel)))
+                jr = [[x] for i in sel for x in rj[i]]
+                orr = [[x] for i in sel for x in ro[i]] if ro is not None else None
+            else:
+                cols = tuple(a[sel] for a in v.inputs)
+                jr = [rj[i] for i in sel]
+                orr = [ro[i] for i in sel] if ro is not None else None
+            if kind == "slice":
+                jr = [[r[0] if r[1] else None, r[1]] for r in jr]
+                orr = [[r[0] if r[1] else None, r[1]] for r in orr] if orr is not None else None
+            v.d_cols, v.d_jr, v.d_or = cols, jr, orr
+            v.d2_job = jobs.add(_render_cases(f"j{len(jobs.jobs)}", jx, cols, jr, kind))
+            if orr is not None and v.s_job is not None:
+                v.d3_job = jobs.add(_render_cases(f"o{len(jobs.jobs)}", low, cols, orr, kind))
+        except Exception as e:  # noqa: BLE001
+            ctx.oblige(f"tieD2:{v.id}", False, "tie", f"cannot render the grid: {type(e).__name__}: {e}"[:300])
+
+    # ---- one parallel Coq evaluation of every tie
+    results = jobs.run(ctx, nfiles=8)
+    T["coq_ties"] = round(_time.time() - t_, 1)
+    t_ = _time.time()
+    if jobs.logs:
+        ctx.oblige("coq-evaluation-of-ties", False, "tie", "a generated tie file did not compile: " + jobs.logs[0][-1200:])
+
+    # ---- tie D1 (finish): measured onnxruntime deviations
+    deviations, d1stats = d1_finish(ctx, d1_items, [results[j] for j in d1_jobs], d1_nok, d1_schema)
+
+    # ---- tie S (finish)
+    n_s = 0
     for v in live:
         if v.term is None:
             ctx.oblige(f"tieS:{v.id}", False, "tie", f"kernel structure not recognised: {v.k.name} ({v.term_err}); nodes: {structure(v.model)}")
-        elif not v.s_ok:
+        elif results[v.s_job] is not True:
             ctx.oblige(f"tieS:{v.id}", False, "tie",
                        f"kernel structure not recognised: {v.k.name}: exported graph {structure(v.model)} translates to {v.term} "
                        f"which is not convertible to {coq_names(v.k, v.dt)[1]}")
-    n_s = sum(1 for v in recognised if v.s_ok)
+        else:
+            n_s += 1
     ctx.oblige(f"tieS:exported-structure-convertible-to-lowered_k({n_s}/{len(live)} kernel x dtype variants)",
                n_s == len(live), "tie", "" if n_s == len(live) else "see the tieS:<kernel>:<dtype> obligations")
 
-    T["tieS"] = round(_time.time() - t_, 1)
-    t_ = _time.time()
-    # ---- the property on the real code: onnxruntime(export) vs eager JAX on the grid
-    no_kernel, deviant, searched, points = [], [], 0, 0
-    nontrivial = 0
+    # ---- the property on the real code (judge)
+    no_kernel, deviant, searched, points, nontrivial = [], [], 0, 0, 0
     for v in live:
-        terr = schema_type_errors(v.model)
-        if terr:
-            v.status = "onnx-type-invalid"
-            ort_msg = ""
-            try:
-                run_ort(v.model, v.k, v.dt, tuple(a[:1] for a in v.inputs))
-                ort_msg = "onnxruntime nevertheless ran it"
-            except Exception as e:  # noqa: BLE001
-                ort_msg = "onnxruntime: " + str(e).replace("\n", " ")[:200]
+        if v.status == "onnx-type-invalid":
             ctx.violate(_reason_key(v, "onnx-type-invalid"),
-                        f"{v.k.name} on {v.dt}: the exported model is not valid ONNX ({'; '.join(terr)} is outside the operator's type "
-                        f"constraint); {ort_msg}; JAX computes it (e.g. inputs {point(v, 0)} -> {rows_jax(v)[0]})",
+                        f"{v.k.name} on {v.dt}: the exported model is not valid ONNX ({'; '.join(v.type_errors)} is outside the operator's "
+                        f"type constraint); {v.ort_err}; JAX computes it (e.g. inputs {point(v, 0)} -> {rows_jax(v)[0]})",
                         {"kind": "onnx-type-invalid", "kernel": v.k.name, "dtype": v.dt, "input": point(v, 0), "nodes": structure(v.model)})
             continue
         dev = sorted(node_op_dtypes(v.model) & deviations)
@@ -1087,115 +1187,68 @@ def run(ctx):
             v.status = "ort-deviant"
             deviant.append(f"{v.id} ({', '.join(f'{o}:{d}' for o, d in dev)})")
             continue
-        try:
-            v.ort = run_ort(v.model, v.k, v.dt, v.inputs)
-        except Exception as e:  # noqa: BLE001
-            msg = str(e).replace("\n", " ")
-            if "NOT_IMPLEMENTED" in msg:
-                v.status = "ort-no-kernel"
-                no_kernel.append(v.id)
-                continue
-            v.status = "ort-error"
+        if v.status == "ort-no-kernel":
+            no_kernel.append(v.id)
+            continue
+        if v.status == "ort-error":
             ctx.violate(_reason_key(v, "ort-rejects-model"),
-                        f"{v.k.name} on {v.dt}: onnxruntime cannot run the exported model: {msg[:300]}",
+                        f"{v.k.name} on {v.dt}: onnxruntime cannot run the exported model: {v.ort_err[:300]}",
                         {"kind": "ort-error", "kernel": v.k.name, "dtype": v.dt, "input": point(v, 0), "nodes": structure(v.model)})
             continue
         v.status = "searched"
         searched += 1
-        rj, ro = rows_jax(v), rows_ort(v)
+        rj = rows_jax(v)
         points += len(rj)
-        shape_bad = False
-        if v.k.name == "dynamic_slice":
-            exp_rows = [np.asarray(r).tolist() for r in v.jax]
-            got_rows = [np.asarray(r).tolist() for r in v.ort]
-            v.bad = [i for i in range(len(exp_rows)) if exp_rows[i] != got_rows[i]]
-            shape_bad = any(len(exp_rows[i]) != len(got_rows[i]) for i in v.bad)
-            dtype_bad = any(np.asarray(a).dtype != np.asarray(b).dtype for a, b in zip(v.jax, v.ort))
-        else:
-            j, o = np.asarray(v.jax), np.asarray(v.ort)
-            dtype_bad = j.dtype != o.dtype
-            if j.shape != o.shape:
-                shape_bad = True
-                v.bad = [0]
-            else:
-                eq = (j == o)
-                if j.dtype.kind == "f":
-                    eq = eq | (np.isnan(j) & np.isnan(o))
-                v.bad = np.nonzero(~eq.reshape(len(v.inputs[0]), -1).all(axis=1))[0].tolist()
-            nontrivial += int((j.reshape(len(v.inputs[0]), -1)[:, 0] != np.asarray(v.inputs[0]).astype(j.dtype, copy=False)).sum()) \
-                if j.shape[:1] == v.inputs[0].shape and v.inputs[0].dtype != np.bool_ and j.dtype != np.bool_ else len(rj) // 2
-        if dtype_bad and not v.bad:
+        try:
+            first = np.asarray(v.inputs[0]).reshape(len(rj), -1)[:, 0]
+            res0 = np.array([r[0] if len(r) else 0 for r in rj])
+            nontrivial += int((res0.astype(np.float64) != first.astype(np.float64)).sum())
+        except Exception:  # noqa: BLE001
+            pass
+        islist = isinstance(v.ort, list)
+        if v.dtype_bad and not v.bad:
             ctx.violate(_reason_key(v, "dtype-mismatch"),
-                        f"{v.k.name} on {v.dt}: onnxruntime returns {np.asarray(v.ort[0] if isinstance(v.ort, list) else v.ort).dtype}, JAX "
-                        f"{np.asarray(v.jax[0] if isinstance(v.jax, list) else v.jax).dtype}",
+                        f"{v.k.name} on {v.dt}: onnxruntime returns {np.asarray(v.ort[0] if islist else v.ort).dtype}, JAX "
+                        f"{np.asarray(v.jax[0] if islist else v.jax).dtype}",
                         {"kind": "value", "kernel": v.k.name, "dtype": v.dt, "input": point(v, 0), "nodes": structure(v.model)})
         if v.bad:
             i = v.bad[0]
-            got = (np.asarray(v.ort[i]).tolist() if isinstance(v.ort, list) else np.asarray(v.ort)[i].tolist()) if not (shape_bad and not isinstance(v.ort, list)) else f"shape {np.asarray(v.ort).shape}"
-            exp = np.asarray(v.jax[i]).tolist() if isinstance(v.jax, list) else np.asarray(v.jax)[i].tolist()
-            reason = "shape-mismatch" if shape_bad else "value-mismatch"
+            if v.shape_bad and not islist:
+                got = f"shape {np.asarray(v.ort).shape}"
+            else:
+                got = np.asarray(v.ort[i]).tolist()
+            exp = np.asarray(v.jax[i]).tolist()
+            reason = "shape-mismatch" if v.shape_bad else "value-mismatch"
             ctx.violate(_reason_key(v, reason),
                         f"{v.k.name} on {v.dt}: inputs {point(v, i)}: exported model in onnxruntime gives {got}, eager JAX gives {exp} "
                         f"({len(v.bad)} of {len(rj)} grid points differ); nodes {structure(v.model)}",
                         {"kind": "value", "kernel": v.k.name, "dtype": v.dt, "input": point(v, i), "onnxruntime": got, "jax": exp,
-                         "differing_points": len(v.bad), "more_inputs": [point(v, b) for b in v.bad[1:6]], "nodes": structure(v.model)})
+                         "differing_points": len(v.bad), "more_inputs": [point(v, b_) for b_ in v.bad[1:6]], "nodes": structure(v.model)})
 
-    T["search"] = round(_time.time() - t_, 1)
-    t_ = _time.time()
-    # ---- ties D2 (jax_k == eager JAX) and D3 (lowered_k == onnxruntime(export)), inside Coq on the same grid
-    cap = 100 if tier == "quick" else 400
-    d_items = []
-    for v in live:
-        try:
-            jx, low, kind = coq_names(v.k, v.dt)
-            rj = rows_jax(v)
-            sel = _cap(len(rj), cap, rng, must=v.bad[:20])
-            if v.k.name == "one_hot":
-                n = v.k.extra["n"]
-                cols = (np.repeat(v.inputs[0][sel], n).astype(np.int64) if v.dt != "uint64" else np.repeat(v.inputs[0][sel], n),
-                        np.tile(np.arange(n, dtype=np.int64), len(sel)))
-                jr = [[x] for i in sel for x in rj[i]]
-                orr = [[x] for i in sel for x in rows_ort(v)[i]] if v.status == "searched" else None
-            else:
-                cols = tuple(a[sel] for a in v.inputs)
-                jr = [rj[i] for i in sel]
-                orr = [rows_ort(v)[i] for i in sel] if v.status == "searched" else None
-            if kind == "slice":
-                jr = [[r[0] if r[1] else None, r[1]] for r in jr]
-                orr = [[r[0] if r[1] else None, r[1]] for r in orr] if orr is not None else None
-            d_items.append((v, "jax", jx, cols, jr, kind))
-            if orr is not None and v.s_ok if hasattr(v, "s_ok") else False:
-                d_items.append((v, "ort", low, cols, orr, kind))
-        except Exception as e:  # noqa: BLE001
-            ctx.oblige(f"tieD2:{v.id}", False, "tie", f"cannot render the grid: {type(e).__name__}: {e}"[:300])
-
-    def render_d(chunk, off):
-        return "".join(_render_cases(f"g{off + j}", f, cols, rows, kind) for j, (v, side, f, cols, rows, kind) in enumerate(chunk))
-    res = common.coq_eval_batches(ctx, "c01k_d", COQ_HDR, d_items, render_d, per_file=24)
-    bads = _collect_bad(res, len(d_items))
+    # ---- ties D2 / D3 (finish)
     n_d2 = n_d3 = c_d2 = c_d3 = 0
-    if bads is None:
-        ctx.oblige("tieD2:jax_k-equals-eager-JAX", False, "tie", "Coq evaluation failed: " + "\n".join(o[-500:] for ok, o in res if not ok)[:1500])
-    else:
-        bad_d2, bad_d3 = [], []
-        for (v, side, f, cols, rows, kind), bad in zip(d_items, bads):
-            if side == "jax":
-                n_d2 += 1
-                c_d2 += len(rows)
-                if bad:
-                    bad_d2.append(f"{v.id}: {f} differs from eager JAX on {len(bad)}/{len(rows)} points, e.g. inputs "
-                                  f"{[c[bad[0]].item() for c in cols]} JAX {rows[bad[0]]}")
-            else:
-                n_d3 += 1
-                c_d3 += len(rows)
-                if bad:
-                    bad_d3.append(f"{v.id}: {f} differs from onnxruntime on the real export on {len(bad)}/{len(rows)} points, e.g. inputs "
-                                  f"{[c[bad[0]].item() for c in cols]} onnxruntime {rows[bad[0]]}")
-        ctx.oblige(f"tieD2:jax_k-equals-eager-JAX({n_d2} variants, {c_d2} points)", not bad_d2, "tie", "; ".join(bad_d2[:6]))
-        ctx.oblige(f"tieD3:lowered_k-equals-onnxruntime-on-the-real-export({n_d3} variants, {c_d3} points)", not bad_d3, "tie",
-                   "; ".join(bad_d3[:6]))
+    bad_d2, bad_d3 = [], []
+    for v in live:
+        if v.d2_job is not None:
+            bad = results[v.d2_job]
+            n_d2 += 1
+            c_d2 += len(v.d_jr)
+            if bad is None or bad:
+                bad_d2.append(f"{v.id}: {coq_names(v.k, v.dt)[0]} " + ("could not be evaluated" if bad is None else
+                              f"differs from eager JAX on {len(bad)}/{len(v.d_jr)} points, e.g. inputs "
+                              f"{[c[bad[0]].item() for c in v.d_cols]} JAX {v.d_jr[bad[0]]}"))
+        if v.d3_job is not None and v.status == "searched":
+            bad = results[v.d3_job]
+            n_d3 += 1
+            c_d3 += len(v.d_or)
+            if bad is None or bad:
+                bad_d3.append(f"{v.id}: {coq_names(v.k, v.dt)[1]} " + ("could not be evaluated" if bad is None else
+                              f"differs from onnxruntime on the real export on {len(bad)}/{len(v.d_or)} points, e.g. inputs "
+                              f"{[c[bad[0]].item() for c in v.d_cols]} onnxruntime {v.d_or[bad[0]]}"))
+    ctx.oblige(f"tieD2:jax_k-equals-eager-JAX({n_d2} variants, {c_d2} points)", not bad_d2, "tie", "; ".join(bad_d2[:6]))
+    ctx.oblige(f"tieD3:lowered_k-equals-onnxruntime-on-the-real-export({n_d3} variants, {c_d3} points)", not bad_d3, "tie",
+               "; ".join(bad_d3[:6]))
 
-    T["tieD2D3"] = round(_time.time() - t_, 1)
     kernels_seen = sorted({v.k.name for v in live})
     ctx.coverage.update({
         "c01k_kernels": len(kernels_seen), "c01k_kernel_list": kernels_seen,
